@@ -1264,6 +1264,13 @@ var msgMatchers = []msgMatcher{
 			{"chunk type 0xff", winboxMsg("admin", 32, 1, 0xff, 0), "no"},
 			{"empty user name", winboxMsg("", 32, 1, 6, 0), "no"},
 			{"user name with a space", winboxMsg("ad min", 32, 1, 6, 0), "no"},
+			{"user name with a dollar sign", winboxMsg("ad$min", 32, 1, 6, 0), "no"},
+			{"user name with an ampersand", winboxMsg("R&D", 32, 1, 6, 0), "no"},
+			{"user name with an apostrophe", winboxMsg("o'neil", 32, 1, 6, 0), "no"},
+			{"user name with an asterisk", winboxMsg("a*b", 32, 1, 6, 0), "no"},
+			{"user name with a plus sign inside", winboxMsg("a+b", 32, 1, 6, 0), "no"},
+			{"user name with a comma", winboxMsg("a,b", 32, 1, 6, 0), "no"},
+			{"user name with a slash", winboxMsg("a/b", 32, 1, 6, 0), "no"},
 			{"user name ending with a dash", winboxMsg("admin-", 32, 1, 6, 0), "no"},
 			{"one byte after the message", winboxMsg("admin", 32, 1, 6, 1), "no"},
 			{"header only", winboxMsg("admin", 32, 1, 6, 0)[:2], "more"},
